@@ -55,6 +55,29 @@ def instances(seed, n):
     # fixed cases: stack discipline, exclusive states, ties
     out.append(dict(id="lex-fixed-stack", eff=DEFAULT_EFF, l="%x A\n%s B\n%%\n\\( <+A>'LP'\n<A>\\( <+A>'LP2'\n<A>\\) <-A>'RP'\n<A>a 'AA'\na 'A0'\nb <B>'B0'\n<B>c <INITIAL>'C0'\n<A,B>[ ]+ ;\n[ ]+ ;\n",
                     inputs=["((a))a", "(a)(a", "a b a c a", "( ( a ) ) a", ")", "((a)))a", "b a c a"]))
+    # regex flags (C09 quantifies over them): rules whose matches depend on each flag, the flag given
+    # in the %grmtools section or through the builder, alone and with the opposite value of a neighbour;
+    # the match environment is computed under the flags the DOCUMENT asks for
+    flagrules = [dict(re=r, name="T%d" % k, states=[], target=None, quote="'") for k, r in enumerate(["a.", "b$", "^c", "d+d", "e e", "k"])] + \
+                [dict(re="[\\t\\x20]+", name=None, states=[], target=None, quote="'"), dict(re="\\n", name=None, states=[], target=None, quote="'")]
+    finputs = ["a\nb", "b\nb", "c\nc c", "ddd", "e e", "ee", "K k", "a\n", "b", "dd dd"]
+    k = 0
+    for f in ["dot_matches_new_line", "multi_line", "case_insensitive", "swap_greed", "ignore_whitespace"]:
+        for v in (True, False):
+            for via in ("header", "builder"):
+                for other in (None, "multi_line", "dot_matches_new_line"):
+                    if other == f:
+                        continue
+                    fl = {f: v}
+                    if other:
+                        fl[other] = not v
+                    d = dict(states=[], rules=[dict(r) for r in flagrules], header=(fl if via == "header" else None), builder=(fl if via == "builder" else None))
+                    text, rd = genlex.render_lsrc(d, rng)
+                    inst = dict(id="lexflag%d" % k, l=text, eff=rd["eff"], inputs=finputs)
+                    if via == "builder":
+                        inst["builder_flags"] = fl
+                    out.append(inst)
+                    k += 1
     out.append(dict(id="lex-fixed-ties", eff=DEFAULT_EFF, l="%%\nif 'IF'\n[a-z]+ 'ID'\n[a-z]+ 'ID2'\ni 'I'\n[ ]+ ;\n",
                     inputs=["if", "ifx", "i", "x if i", "if if"], map={"IF": 5, "ID": 3, "I": 1, "NOPE": 9}))
     return out
